@@ -439,22 +439,35 @@ func r088ViewAttribute(c *an.Ctx) {
 			n++
 			arg := an.Unparen(call.Args[1])
 			o := an.ObjOf(info, arg)
-			good := o != nil && (o == vatParam || elem[o])
-			// a variable defined from a literal is not an element of the view
-			if good && o != vatParam {
+			// what is refused is a view attribute BUILT here (a composite literal, directly or through a
+			// local): it cannot carry the override Meta of the view definition. The parameter itself, an
+			// element of the view's object, the result of a lookup helper are all attributes of the view.
+			builtHere := func(e ast.Expr) bool {
+				switch x := an.Unparen(e).(type) {
+				case *ast.CompositeLit:
+					return true
+				case *ast.UnaryExpr:
+					_, isLit := an.Unparen(x.X).(*ast.CompositeLit)
+					return isLit
+				}
+				return false
+			}
+			good := !builtHere(arg)
+			if good && o != nil && o != vatParam {
 				ast.Inspect(f.Decl.Body, func(m ast.Node) bool {
 					as, ok := m.(*ast.AssignStmt)
-					if !ok || len(as.Lhs) != 1 || len(as.Rhs) != 1 || an.ObjOf(info, as.Lhs[0]) != o {
+					if !ok || len(as.Lhs) != len(as.Rhs) {
 						return true
 					}
-					if ro := an.ObjOf(info, as.Rhs[0]); ro == nil || !(elem[ro] || ro == vatParam) {
-						if id, isID := an.Unparen(as.Rhs[0]).(*ast.Ident); !isID || id.Name != "nil" {
+					for i, l := range as.Lhs {
+						if an.ObjOf(info, l) == o && builtHere(as.Rhs[i]) {
 							good = false
 						}
 					}
 					return true
 				})
 			}
+			_ = elem
 			c.Check(good, rule, fmt.Sprintf("%s#projectRecursive(%s)", f.Name, an.Src(c.Fset, arg)), call.Pos(), "the view attribute passed down is the view definition's own", "the view attribute passed to the recursive projection is not an attribute of the view definition (the parameter itself or an element of the view's object): the per-view override it carries in its Meta is lost and the nested value is rendered with the default view")
 			return true
 		})
